@@ -204,7 +204,10 @@ fn with_monitor<T>(f: impl FnOnce() -> T) -> (T, Option<Leak>) {
         // process's own fds 0-2 for a moment (the numbers would be reused).
         let t0 = ip::real_now_ns();
         while !s2.load(SeqCst) {
-            ip::real_sleep_ms(10);
+            std::thread::park_timeout(std::time::Duration::from_millis(10));
+            if s2.load(SeqCst) {
+                return;
+            }
             if (ip::real_now_ns() - t0) / 1_000_000 < 150 {
                 continue;
             }
@@ -233,6 +236,7 @@ fn with_monitor<T>(f: impl FnOnce() -> T) -> (T, Option<Leak>) {
     });
     let r = f();
     stop.store(true, SeqCst);
+    mon.thread().unpark();
     let _ = mon.join();
     let l = found.lock().unwrap().take();
     (r, l)
